@@ -231,7 +231,7 @@ def main():
     res_json = os.path.join(outdir, "result.json")
     cmd = [GOVC, "verify", "-repo", REPO, "-pkgs", ",".join(cfg["pkgs"]), "-prop", pid, "-tier", args.tier,
            "-out", os.path.join(outdir, "vc"), "-json", res_json, "-timeout", str(timeout),
-           "-cover-timeout", str(cover_timeout), "-assumed", os.path.join(VERIF, "contracts", "assumed"), "-workers", "5"]
+           "-cover-timeout", str(cover_timeout), "-assumed", os.path.join(VERIF, "contracts", "assumed"), "-workers", "8"]
     if args.overlay:
         cmd += ["-overlay", args.overlay]
     import signal
